@@ -7,7 +7,7 @@
    semicircle encoding and monotonicity are checked as flags over generated
    inputs. *)
 From Coq Require Import Reals ZArith Lra.
-From GJ Require Import Sphere SphereRect SphereDest SphereTriangle.
+From GJ Require Import Sphere SphereRect SphereDest SphereTriangle SphereSemi.
 Open Scope R_scope.
 
 Theorem C15_distance_symmetric : forall a b c d, distance_to a b c d = distance_to c d a b.
@@ -40,6 +40,12 @@ Proof. exact dist_from_hav_le_piR. Qed.
 Theorem C15_distance_triangle : forall latA lonA latB lonB latC lonC, lat_ok latA -> lat_ok latB -> lat_ok latC ->
   distance_to latA lonA latC lonC <= distance_to latA lonA latB lonB + distance_to latB lonB latC lonC.
 Proof. exact distance_triangle. Qed.
+
+(* semicircle encoding: the round trip moves a coordinate by less than 180/2^31 degrees, under a centimetre of arc *)
+Theorem C15_semicircle_roundtrip : forall x, Rabs (semi_to_degs (degs_to_semi x) - x) < 180 / 2 ^ 31.
+Proof. exact semi_roundtrip. Qed.
+Theorem C15_semicircle_roundtrip_on_the_ground : rad (180 / 2 ^ 31) * Rearth < 1 / 100.
+Proof. exact semi_roundtrip_ground. Qed.
 
 (* travelling d along bearing th from A: the haversine of (A, destination) is the haversine of d, the distance back
    is d, and the arguments of the initial-bearing atan2 are (sin th, cos th) * sin (d/R), i.e. the bearing back is th.
